@@ -28,7 +28,7 @@ BUDGET = {"quick": 40.0, "thorough": 420.0}
 
 
 def shards(tier, seed):
-    mult = 1 if tier == "quick" else 12
+    mult = 1 if tier == "quick" else 90
     return [{"n": 14 * mult, "steps": 220, "exh_keys": 6 if tier == "quick" else 8, "exh_part": i, "exh_parts": 16} for i in range(16)]
 
 
